@@ -2,7 +2,7 @@
 """Regenerates /verif/MANIFEST.json from props.json (claimed checks) and not_applicable.json."""
 import json, os
 V = os.path.dirname(os.path.dirname(os.path.abspath(__file__)))
-props = json.load(open(os.path.join(V, "props.json")))
+props = {f[:-5]: json.load(open(os.path.join(V, "props", f))) for f in sorted(os.listdir(os.path.join(V, "props"))) if f.endswith(".json")}
 na = json.load(open(os.path.join(V, "not_applicable.json")))
 allids = [json.loads(l)["id"] for l in open(os.path.join(V, "properties.jsonl"))]
 checks = []
